@@ -1,7 +1,9 @@
 import PfModel.DriverVal
 import PfModel.Model.RunInfoCodec
+import PfModel.Model.RunInfoResume
 /-! Driver for C04: `runinfo.codec` (decode ∘ encode of an arbitrary record, with the pinned code's key codec next to it)
-    and `run.reload` (the folder a run leaves behind, reloaded). -/
+    and `run.reload` (the folder a run leaves behind, reloaded); `run.resume` (round 4): the same after an EARLIER run into the folder
+    with its own storage configuration and inputs (`PF.RIC.runOn` with `cleanup=False` on the folder the earlier run left). -/
 open Lean PF PF.Drv PF.Map PF.RIC
 
 def getASpec (j : Json) : R ASpec := do
@@ -94,7 +96,7 @@ def handle (m : String) (a : Json) : R Json := do
     return jObj [("json", putJ (encode r)), ("decoded", jOpt putRunInfo (decode fo)),
                  ("keys", jList (fun k => jArr [putKey k, jStr (keyStr k), putKey (strKey (keyStr k)),
                     jStr (String.ofList (keyCharsLegacy k)), putKey (charsKeyLegacy (keyCharsLegacy k))]) keys)]
-  | "run.reload" =>
+  | "run.reload" | "run.resume" =>
     let fs ← listF getMFunc a "funcs"
     let inputs ← getKw (← fld a "inputs")
     let user := (← optF (asList (asPair asStr getIShape)) a "user_internal").getD []
@@ -103,12 +105,27 @@ def handle (m : String) (a : Json) : R Json := do
     let storage ← getStorage (← fld a "storage")
     let persistMemory := (← optF asBool a "persist").getD true
     let version := (← optF asStr a "version").getD "v"
+    -- the folder before the run: empty, or what an earlier (complete) run with its own inputs and storage left
+    let before : Option Folder ← (do
+      if m == "run.reload" then return none
+      let inputs0 ← getKw (← fld a "first_inputs")
+      let storage0 ← getStorage (← fld a "first_storage")
+      match runMapStore fs inputs0 (user.map fun (k, s) => (k, s.dims)) with
+      | .error _ => .error "run.resume: the earlier run fails in the model"
+      | .ok (res0, store0) =>
+        let r0 := createRunInfo fs tupled intForm inputs0 user storage0 version res0.shapes res0.masks
+        return some (folderOf persistMemory r0 (backendFor fs storage0) store0))
     match runMapStore fs inputs (user.map fun (k, s) => (k, s.dims)) with
     | .error e => return putMErr e
     | .ok (res, store) =>
       let r := createRunInfo fs tupled intForm inputs user storage version res.shapes res.masks
       let backend := backendFor fs storage
-      let fo := folderOf persistMemory r backend store
+      let folder : Except Refusal Folder := match before with
+        | none => .ok (folderOf persistMemory r backend store)
+        | some fo0 => runOn (fun _ _ => true) persistMemory fo0 { cleanup := false, info := r, backend := backend, store := store }
+      match folder with
+      | .error e => return jObj [("err", jStr "ValueError"), ("why", jStr s!"resume refused: {repr e}")]
+      | .ok fo =>
       let parse := tableParse fs
       let names := store.map (·.1)
       return jObj [("runinfo", putRunInfo r), ("json", putJ (encode r)), ("decoded", jOpt putRunInfo (decode fo)),
@@ -116,6 +133,7 @@ def handle (m : String) (a : Json) : R Json := do
                    ("stored", putKw res.stored), ("outputs", putKw res.outputs),
                    ("slots", jArr (store.map fun (o, s) => jArr [jStr o, jStr (match s with | .single _ => "single" | .array .. => "array")])),
                    ("agree", jBool (store.all fun (o, s) => agreeSlot parse r backend o s)),
+                   ("resumed", jBool before.isSome),
                    ("backends", jArr (names.map fun o => jArr [jStr o, jOpt (fun b => jStr (match b with
                       | Backend.file => "file_array" | .dict => "dict" | .shm => "shared_memory_dict")) (backend o)]))]
   | _ => .error s!"unknown entry {m}"
